@@ -243,6 +243,7 @@ FIXED = [
     ("[]string", "size(value.filter(x, x != '')) > 1"), ("[]string", "size(value.map(x, size(x))) == 2"), ("[]int", "value.all(x, x > 0)"),
     ("[]int", "value.exists(x, x * 2 > 4)"), ("[]int", "1 in value"), ("[]int", "this.A in value"), ("map[string]int", "size(value) > 0"),
     ("map[string]int", "'k' in value"), ("map[string]int", "value.all(k, k != '')"), ("map[string]int", "value.exists(k, k == 'k')"),
+    ("map[string]int", "value.all(k, k != 0)"), ("map[string]int", "size(value.filter(k, k != 1)) == size(value)"),
     ("time.Duration", "value > duration('1s')"), ("time.Duration", "value <= duration('1h')"), ("int", "has(this.A)"), ("int", "this.Ok ? value > 1 : value < 1"),
     ("int", "(this.Ok ? 1 : 0) == 1"), ("int", "value == 1 || value == 2 && this.A == 3"), ("int", "(value > 1) == (this.A > 1)"),
     ("int", "value > 1 == true"), ("int", "value + this.B > 0"), ("int", "value < 300"), ("int8", "value < 300"), ("int", "1 < value && value < 10"),
